@@ -42,6 +42,9 @@ BUILT["C16"] = ("E1", "fault_enumeration", "deterministic simulation with advers
 BUILT["C17"] = ("E1", "fault_enumeration", "deterministic simulation: honest sessions under chunking/readiness schedules with stream-equality oracle; man-in-the-middle flips / truncates the ciphertext at every offset (one fresh session per offset)",
   "Write sizes around the frame limit x flush patterns x chunkings: bytes read == bytes written; for recorded ciphertext streams every byte position (length prefix, body, tag) is flipped once and every cut point tried: reader output must be a prefix ending before the damaged frame, then error",
   "crypto primitives trusted; ed25519 identities (fixed layout) in the corruption scenarios", "5/C17")
+BUILT["C19"] = ("E1", "exploration", "deterministic simulation: real plaintext / pnet upgrades over fault-injecting pipes (chunking, Pending, EINTR), scripted raw peer coalescing handshake and application bytes; plus a plain seeded-input rider for the key-file text format",
+  "Seeded search over identities x payloads x chunkings x schedules: stream equality both ways, PeerIdMismatch for every id/key mismatch, follow-up bytes sent in the same write as the Exchange message are read first and completely; pnet with equal keys is transparent under partial writes and Interrupted errors; key-file rider: round-trip and no panic on arbitrary (incl. 64-byte non-ASCII) text",
+  "plaintext Exchange is capped at 100 bytes by the code, so only ed25519/secp256k1 identities are used there; the key-file rider is input generation, not simulation, and is labelled so in evidence", "5/C19")
 NOT_YET = {}
 
 def main():
